@@ -208,6 +208,16 @@ def run(ctx, eng):
                'self.encoder is handed to the stream', node=fi.node)
     ctx.assume('hpack\'s own correctness and the decode side are not '
                'decided')
+    cm.include(ctx, eng, 'C25',
+               lambda o: o.rule == 'FLOW.codec' and isinstance(o.where, str)
+               and o.where.endswith('initiate_upgrade_connection'),
+               'a HEADER_TABLE_SIZE announced in HTTP2-Settings reaches the '
+               'encoder through the code that applies every other SETTINGS '
+               'frame of the peer')
+    cm.include(ctx, eng, 'C09', {'ARITH.id-high'},
+               'a stream id above 2**31-1 is refused when the stream is '
+               'created, before its header block is encoded: a frame with '
+               'such an id cannot be serialised and the block would be lost')
     cm.include(ctx, eng, 'C20', {'ORD.decode-first'},
                'the receiving half of the same invariant: a block that was '
                'encoded is decoded, whatever becomes of its stream')
